@@ -166,6 +166,12 @@ def _bounds(rng, F):
     out.append([l, l + 1])
     l = int(rng.integers(1, F - 1))
     out.append([l, int(rng.integers(l + 1, F))])
+    # negative bounds count from the end, exactly as for a list (non-empty results only)
+    k = int(rng.integers(2, F))
+    out.append([-k, F])
+    out.append([-k, -1])
+    out.append([int(rng.integers(0, F - 2)), -1])
+    out.append([-k, int(rng.integers(F - k + 1, F + 1))])
     return out, False
 
 
@@ -355,7 +361,9 @@ def run_slice(stg, c, R, fr, meta):
     for l, r in c['bounds']:
         with common.quiet():
             s = fr.get_slice(l, r) if c['method'] else stg.get_slice(fr, l, r)
-        if l == 0 and r == F:
+        if l < 0 or r < 0:
+            R.bucket('slice:negative-bound')
+        elif l == 0 and r == F:
             R.bucket('slice:full')
         elif l == 0:
             R.bucket('slice:left-edge')
@@ -371,7 +379,7 @@ def run_slice(stg, c, R, fr, meta):
             R.count('pixels_compared', int(want.size))
             R.check(np.array_equal(got, want), f'slice:data:{P.o}', l=l, r=r, F=F,
                     nbad=int(np.sum(got != want)))
-            R.check(int(s.fchans) == r - l and int(s.tchans) == P.T, f'slice:fchans-tchans:{P.o}', l=l, r=r)
+            R.check(int(s.fchans) == want.shape[1] and int(s.tchans) == P.T, f'slice:fchans-tchans:{P.o}', l=l, r=r)
         check_axis(R, s.fs, P.fs[l:r], P.tolf, f'slice:fs:{P.o}', 'slice_fs', l=l, r=r, F=F)
         check_axis(R, s.ts, P.ts, 4 * common.ulp(max(P.T * P.dt, 1e-300)), f'slice:ts:{P.o}', 'slice_ts', l=l, r=r)
         check_kept(R, P, s, 'slice', fr)
